@@ -121,6 +121,11 @@ class Adapter(EnvAdapter):
                 c("un10a10_t3", "uniform", 10, 10, 3, 3, 7, probe_cap=64),
                 # many resets of a crowded board (C10: agents boxed in at their start cell)
                 c("rw3a3_t7", "random_walk", 3, 3, 7, 72, 2, probe_cap=10),
+                # DenseRewardFn with non-default parameters (also given as Python ints)
+                dict(c("rw4a3_t7_rw", "random_walk", 4, 3, 7, 6, 12, probe_cap=36), ctor=dict(generator="random_walk", grid_size=4,
+                     num_agents=3, time_limit=7, reward=(2.5, -0.25))),
+                dict(c("un4a2_t7_rwint", "uniform", 4, 2, 7, 6, 12, probe_cap=25), ctor=dict(generator="uniform", grid_size=4,
+                     num_agents=2, time_limit=7, reward=(3, -1))),
                 # INJ: boards reachable in the 3x3 two-agent TLC model as start states, all 25 joint actions probed
                 c("inj3a2", "all", 3, 2, 50, 0, 1, inject=("MC_Connector", "MC_Connector_quick.cfg"), limit=600, post_terminal=0,
                   policies=["random"], props=INJ_PROPS),
@@ -140,6 +145,12 @@ class Adapter(EnvAdapter):
             out.append(c(f"{g}3a3_t7", gen, 3, 3, 7, 40, 11, probe_cap=125, probe_every=2))
             out.append(c(f"{g}3a3_t2_resets", gen, 3, 3, 2, 300, 1, probe_cap=6))
         out.append(c("default_rw10a10_t50", "default", 10, 10, 50, 12, 56, probe_every=4, probe_cap=72))
+        out.append(dict(c("rw4a3_t7_rw", "random_walk", 4, 3, 7, 18, 12, probe_cap=36), ctor=dict(generator="random_walk", grid_size=4,
+                        num_agents=3, time_limit=7, reward=(2.5, -0.25))))
+        out.append(dict(c("un4a2_t7_rwint", "uniform", 4, 2, 7, 18, 12, probe_cap=25), ctor=dict(generator="uniform", grid_size=4,
+                        num_agents=2, time_limit=7, reward=(3, -1))))
+        out.append(dict(c("inj3a2", "all", 3, 2, 50, 0, 1, inject=("MC_Connector", "MC_Connector_quick.cfg"), post_terminal=0,
+                          policies=["random"], props=INJ_PROPS)))
         return out
 
     def make(self, cfg):
@@ -158,6 +169,11 @@ class Adapter(EnvAdapter):
             gen = _witness_generator(RandomWalkGenerator(grid_size=k["grid_size"], num_agents=k["num_agents"]))
         else:
             gen = UniformRandomGenerator(grid_size=k["grid_size"], num_agents=k["num_agents"])
+        if k.get("reward"):         # DenseRewardFn with non-default parameters
+            from jumanji.environments.routing.connector.reward import DenseRewardFn
+
+            return Connector(generator=gen, time_limit=k["time_limit"],
+                             reward_fn=DenseRewardFn(connected_reward=k["reward"][0], timestep_reward=k["reward"][1]))
         return Connector(generator=gen, time_limit=k["time_limit"])
 
     def episode_key(self, cfg, ep, seed):
@@ -169,7 +185,10 @@ class Adapter(EnvAdapter):
 
     def cfg_record(self, cfg, env):
         k = cfg["ctor"]
-        return dict(grid_size=k["grid_size"], num_agents=k["num_agents"], time_limit=k["time_limit"],
+        extra = {}
+        if k.get("reward"):
+            extra = dict(connected_reward100=int(round(k["reward"][0] * 100)), timestep_reward100=int(round(k["reward"][1] * 100)))
+        return dict(extra, grid_size=k["grid_size"], num_agents=k["num_agents"], time_limit=k["time_limit"],
                     generator=k["generator"], witness=k["generator"] not in ("uniform", "all"))
 
     # ---- probes ---------------------------------------------------------------------------
